@@ -225,6 +225,13 @@ def collect(
     if not keep_col_refs:
         return Table(df)
 
+    for uid in table._cache.partition_by:
+        if uid not in table._cache.uuid_to_name:
+            raise ValueError(
+                f"cannot collect a table whose grouping column `{table._cache.cols[uid].ast_repr()}` is not "
+                "selected\nhint: Keep the grouping columns in `select` / `drop` or call `ungroup` first."
+            )
+
     # TODO: keep_hidden_cols option
 
     assert len(table) == len(table._cache.name_to_uuid)
@@ -239,7 +246,9 @@ def collect(
         )
     )
     new._cache.derived_from = table._cache.derived_from | {new._ast}
-    new._cache.partition_by = [preprocess_arg(col, new) for col in table._cache.partition_by]
+    if table._cache.partition_by:
+        # keep the grouping state
+        new = new >> group_by(*(new._cache.cols[uid] for uid in table._cache.partition_by))
 
     return new
 
